@@ -7,7 +7,7 @@ from concurrent.futures import ThreadPoolExecutor
 
 SEEDED = "/verif/seeded"
 POOL = "/tmp/vs"
-NW = 4
+NW = 5
 head = subprocess.run(["git", "-C", "/repo", "rev-parse", "--short", "HEAD"], stdout=subprocess.PIPE, text=True).stdout.strip()
 
 
@@ -32,7 +32,7 @@ def verify(args):
     name, wt = args
     d = os.path.join(SEEDED, name)
     meta = json.load(open(os.path.join(d, "meta.json")))
-    prop = meta["property"]
+    prop = meta.get("check_property", meta["property"])
     res = {}
     sh("git checkout -q -- . && make", cwd=wt)
     rc, _ = sh("git apply %s/patch.diff" % d, cwd=wt)
